@@ -261,7 +261,7 @@ def execute(plan):
     digests = []
     sde_val = epoch_value(plan["envs"][0]["sde"])
     for xi, env in enumerate(plan["envs"]):
-        root = runner.fresh_dir("rp-%d-%016x-%d" % (os.getpid(), fnv1a(json.dumps(plan["spec"], sort_keys=True)), xi))
+        root = runner.fresh_dir("rp-%07d-%016x-%d" % (os.getpid(), fnv1a(json.dumps(plan["spec"], sort_keys=True)), xi))
         outputs, info = run_once(steps, env, root, ref_raw)
         common.cleanup(root)
         clock_reads += info["clock_reads"]
